@@ -71,6 +71,10 @@ CHECKS["C13"] = dict(level="exploration", design="4/C13, 3.7", technique="TLC en
     text="spec/Purity.tla declares for every public operation the footprint 'reads its argument, writes nothing, result a function of the argument'. TLC enumerates all call histories of length <= 2 (thorough: 3, sampled) over 12 operations x 14 pooled objects and all unordered pairs of overlapping calls (shared object or private clones). The harness runs the histories in one warm process with a deep snapshot (proto.Clone + slice identity) around every call and compares each result digest with the same call in a cold subprocess; scenarios start from a barrier in a -race build, race reports are attributed to the scenario. The recorded Begin/Write/End traces (a Write only when observed) are validated by TLC: InputsUnchanged, ResultDependsOnlyOnArgs, NoDataRace.",
     note="Exploration level: the object pool and the repetition counts bound what is seen; the race detector reports races possible in executed paths, not all schedules. A process-wide weighted-graph builder is part of the pool (a builder must not remember earlier models).")
 
+CHECKS["C08"] = dict(level="exploration", design="4/C08, 8", technique="model-derived input neighbourhoods generated by TLC (token mutations of the layout specification, degenerate protobuf models, pumped families) executed on every entry point under recover(); recorded outcomes / growth measurements validated by TLC",
+    text="a) every valid token stream of spec/DslLayout.tla with one (exhaustive on a block of documents) or two (sampled) token deletions / duplications / substitutions / transpositions / truncations is rendered by TLC and fed to 8 text entry points; b) spec/Degenerate.tla enumerates base models x sets of holes (40 kinds of missing optional parts x sites), the harness punches them into the protobuf value and calls 6 model entry points, TLC validates TotalOnDegenerateModels on the recorded outcomes; c) spec/Pump.tla derives pumped families (49 separator / lexeme units x 7 grammatical contexts, 6 model families for the graph builders), the harness measures first-encounter work for doubling n in a fresh process per unit, TLC validates WorkWithinQuadratic; d) auxiliary, not model-derived: seeded byte mutations of the fixture corpus. A panic, a call that does not return, or super-quadratic growth is a violation.",
+    note="Exploration level. Inputs far from any sentence are only sampled (part d); coverage-guided fuzzing would reach further but is another technique. The complexity clause is a measurement (allocation counts of the first call; wall time above 5 ms for the CPU-bound graph families; two consecutive doublings >= 4.8x).")
+
 NOT_YET = "check not built yet in this round (see DESIGN.md section 9 for the order of work)"
 
 
